@@ -1031,7 +1031,13 @@ package kcp
 //@ pred (s *UDPSession) ppinv() = s.imm() && s.hdr() && (s.fecEncoder != nil ==> s.fecEncoder.wf() && s.fecEncoder.maxSize + s.ov() <= 1500)
 // parity rows before (room for the AEAD tag) and after sealing
 //@ pred eccrow(r []byte, hs int, room int) = hs <= len(r) && len(r) + room <= 1500 && cap(r) == 1500
+// (C15, termination half) The post-processing goroutine is never parked with its close notification
+// switched off: at the head of its select loop either the die case is armed or a request is known
+// to be waiting (only this goroutine receives from chPostProcessing, so a length it has seen is a
+// lower bound until its own next receive) - and the request arm re-arms the die case.
+//@ soleconsumer UDPSession.postProcess: UDPSession.chPostProcessing
 //@ func UDPSession.postProcess
+//@   loop 1 invariant @C15 [the-goroutine-can-always-see-the-close] chDie == s.die || pending(s.chPostProcessing)
 //@   requires s.ppinv()
 //@   requires calls(fillRand) == calls(BlockCrypt.Encrypt) + calls(cipher.AEAD.Seal)
 //@   modifies everything
